@@ -383,6 +383,14 @@ func render(p []string, style string) string {
 // evalAttempt evaluates src under the configuration, on a fresh VM or (reused) on a VM that an earlier
 // evaluation under the DEFAULT configuration has used: what that evaluation loaded must not be reachable.
 func evalAttempt(src string, opts []risor.Option, repl map[object.Object]string, reused bool) (res N) {
+	return evalAttemptMode(src, opts, repl, map[bool]string{false: "fresh", true: "reused"}[reused])
+}
+
+// evalAttemptMode: mode "sharedmap" hands the configuration a host globals MAP that an evaluation under the default
+// configuration was given before (opts[0] is the WithGlobals option of baseOptions): configurations must not
+// communicate through the host's map.
+func evalAttemptMode(src string, opts []risor.Option, repl map[object.Object]string, mode string) (res N) {
+	reused := mode == "reused"
 	ctx, cancel := context.WithTimeout(context.Background(), 5*time.Second)
 	defer cancel()
 	vos := ros.NewVirtualOS(ctx, ros.WithStdout(ros.NewBufferFile(nil)))
@@ -392,6 +400,13 @@ func evalAttempt(src string, opts []risor.Option, repl map[object.Object]string,
 		}
 	}()
 	all := append([]risor.Option{risor.WithOS(vos)}, opts...)
+	if mode == "sharedmap" {
+		m := hostGlobals()
+		if _, err := risor.Eval(ctx, "vhost.k", risor.WithOS(vos), risor.WithGlobals(m)); err != nil {
+			return N{"ok": false, "l": "harness: warm-up failed: " + err.Error(), "r": ""}
+		}
+		all = append([]risor.Option{risor.WithOS(vos), risor.WithGlobals(m)}, opts[1:]...)
+	}
 	if reused {
 		machine, err := vm.NewEmpty()
 		if err != nil {
@@ -469,12 +484,12 @@ func caseWorker(req N) (resp N) {
 			if src == "" {
 				continue
 			}
-			for _, reused := range []bool{false, true} {
+			for _, mode := range []string{"fresh", "reused", "sharedmap"} {
 				o, repl := build()
-				r := evalAttempt(src, o, repl, reused)
+				r := evalAttemptMode(src, o, repl, mode)
 				r["p"] = pi + 1
 				r["s"] = st
-				r["vm"] = map[bool]string{false: "fresh", true: "reused"}[reused]
+				r["vm"] = mode
 				att = append(att, r)
 			}
 		}
